@@ -12,7 +12,8 @@ ASSUMPTIONS = [
     "roll_completes_partial is about the class's key-state machine (Ca/KeySync.lean) with an answering parent; its tie to the "
     "manager-level sync is the lock-step run, not a proof; at the Sys level KeyRollActivate is refused as a whole while any class "
     "has a new key with open requests, and child certificates with request limits can make shrink/activation fail",
-    "no_loss_no_dup_partial assumes objects_mirror (C01) and no stale suspended entry before the activation command",
+    "no_loss_no_dup_partial assumes objects_mirror (C01) and no stale suspended entry before the activation command; "
+    "no_loss_no_dup_quiet_partial proves the second for every history without an unsuspension of a suspended child",
     "HashMap iteration order is arbitrary: the model visits classes in insertion order, the driver compares per class",
 ]
 
@@ -35,7 +36,7 @@ MANIFEST = {
             "is proved to panic and replays, F-C04-1); aggregate and object sets mirror each other, keys of a class are distinct "
             "(mirror, keys_distinct); only the current set carries products (single_signer); the activation command moves every "
             "product and child certificate to the new key's set and empties the old one (activation_moves_everything, "
-            "no_loss_no_dup_partial, witness of the loss after unsuspension F-C02-1); the finish command leaves one set "
+            "no_loss_no_dup_partial, no_loss_no_dup_quiet_partial, witness of the loss after unsuspension F-C02-1); the finish command leaves one set "
             "(finish_removes_old_set); a second initiate emits nothing (second_roll_noop); two rounds of (sync, activate, sync) complete "
             "every roll of the class key-state machine (roll_completes_partial). Tied to the code by lock-step execution of the model "
             "against an in-process krill (every stored command: events predicted by process, observed events applied by the partial "
